@@ -140,6 +140,15 @@ def gen_scenario(rng, tier, eager_input=False):
             if follow:
                 sc.ops = [("abandon", c, n, rng.choice([b"\x1b[", b"\x1b", b"\x1b]0;ti", b"\x1b[3"]).decode("latin1")), ("reopen",), ("get_prompt",),
                           ("send_command", rng.choice(follow), True, False)] + [o for o in sc.ops[:2] if o[0] != "get_prompt"]
+    if rng.random() < 0.15 and platform == "generic" and not sc.questions and not any(o[0] in ("abandon", "reopen", "send_interactive") for o in sc.ops) and len({c.strip() for c in cmds}) >= 3 and len(cmds) == len({c.strip() for c in cmds}):
+        # the prompt pattern is changed on the open connection (public setter) after operations have already run: from then on the
+        # driver's pattern is the new one -- lines that only the old (generic) pattern accepted are ordinary output of later commands
+        c1, c2, c3 = rng.sample(cmds, 3)
+        for c in (c2, c3):
+            k = c.strip()
+            sc.outputs[k] = (sc.outputs[k] + "\n" if sc.outputs[k] else "") + rng.choice(["total:", "[ok]", "cost 5$", "a~", "<done>", "</rpc-reply>", "node@"]) + "\nend of output"
+        sc.ops = [("send_command", c1, True, False), ("set_pattern", "exact"), ("send_command", c2, rng.random() < 0.8, False), ("get_prompt",),
+                  ("send_commands", [c3, c1], True)]
     if rng.random() < 0.06 and platform != "generic" and not sc.prompts:
         # the connection is made by a GenericDriver and taken over by the platform driver (commandeer): outputs may contain lines
         # that the GENERIC prompt pattern accepts but the platform's does not -- they are not prompts of this driver
@@ -251,7 +260,10 @@ def oracle(sc, res):
                 problems.append(f"get_prompt returned {got!r}, device prompt is {dev.prompt()!r}")
         elif op[0] == "send_command":
             problems += check_single(dev, op[1], op[2], got, trailing)
-        elif op[0] == "reopen":
+        elif op[0] == "send_and_read":
+            # expected outputs that the device never prints: the timed loop ends on the prompt, the result is the command's output
+            problems += check_single(dev, op[1], op[3], got, trailing)
+        elif op[0] in ("reopen", "set_pattern"):
             pass        # the operations after it are judged as usual: a re-opened connection is a new session
         elif op[0] == "abandon":
             if got[0] != "ABANDONED":
@@ -470,7 +482,7 @@ def run(tier, seed):
         nontriv = any(v for v in sc.outputs.values())
         ck.case(json.dumps(sc.describe(), sort_keys=True, default=str), nontrivial=nontriv, sample=sc.describe() if len(json.dumps(sc.describe(), default=str)) < 1500 else None,
                 tags=(sc.platform, sc.stack, "cuts=" + ("whole" if not sc.cuts else "1byte" if set(sc.cuts) == {1} else "fixed" if len(set(sc.cuts)) == 1 else "random"),
-                      f"depth={sc.depth or 1000}", "nl=" + sc.nl.hex(), *(("abandoned-op",) if any(o[0] == "abandon" for o in sc.ops) else ()), *(("reopen",) if any(o[0] == "reopen" for o in sc.ops) else ()), *(("commandeer",) if sc.commandeer else ()), "maxout=" + _bucket(max([len(v) for v in sc.outputs.values()] + [0]), sc.depth or 1000)))
+                      f"depth={sc.depth or 1000}", "nl=" + sc.nl.hex(), *(("abandoned-op",) if any(o[0] == "abandon" for o in sc.ops) else ()), *(("reopen",) if any(o[0] == "reopen" for o in sc.ops) else ()), *(("pattern-changed",) if any(o[0] == "set_pattern" for o in sc.ops) else ()), *(("commandeer",) if sc.commandeer else ()), "maxout=" + _bucket(max([len(v) for v in sc.outputs.values()] + [0]), sc.depth or 1000)))
         probs = oracle(sc, res)
         if probs:
             ck.violation({"scenario": sc.describe(), "problems": probs[:5]}, "; ".join(probs[:2]), matcher)
